@@ -121,7 +121,9 @@ def module_walk(ctx, build, tier):
         depth = 5
     else:
         combos = [(f, g, f) for f in range(16) for g in range(16)]
-        depth = 7
+        depth = 6
+    import time
+    t_end = ctx.t0 + ctx.deadline_s * 0.45      # the module walk may use 45% of the time budget
 
     def one(fl):
         p = subprocess.Popen([exe], stdin=subprocess.PIPE, stdout=subprocess.PIPE,
@@ -133,9 +135,13 @@ def module_walk(ctx, build, tier):
         nprobe = 0
         viol = []
         outcomes = set()
+        timed_out = False
         for d in range(depth):
             nxt = []
             for s in frontier:
+                if time.time() > t_end:
+                    timed_out = True
+                    break
                 hist = seen[s]
                 # one query per probe: history + probe (the server answers every op of the line)
                 lines = []
@@ -168,24 +174,31 @@ def module_walk(ctx, build, tier):
                     if s2 not in seen:
                         seen[s2] = hist + ["%s%d%d%d" % (o, k, t, b)]
                         nxt.append(s2)
+            if timed_out:
+                break
             frontier = nxt
             if len(viol) > 5:
                 break
         p.stdin.close()
         p.wait()
-        return nprobe, len(seen), viol[:5], outcomes, len(frontier)
+        return nprobe, len(seen), viol[:5], outcomes, len(frontier), (d if timed_out else depth)
     res = pmap(one, combos)
     outcomes = set()
     left = 0
+    mindepth = depth
     for fl, r in zip(combos, res):
         nprobe, nst, viol, oc = r[0], r[1], r[2], r[3]
         left += r[4] if len(r) > 4 else 0
+        if len(r) > 5:
+            mindepth = min(mindepth, r[5])
         outcomes |= oc
         ctx.add(evaluations=nprobe, transitions=nprobe, states=nst, traces_validated_against_impl=nprobe)
         for (msg, hist, op) in viol:
             ctx.violation("module walk: " + msg, {"engine": "E4 task_server", "flags": fl, "history": hist, "probe": "%s%d%d%d" % op},
                           {"kind": "module", "op": op[0]})
-    ctx.part("module-walk", flag_combinations=len(combos), depth=depth, ops_per_state=len(ops),
+    if mindepth < depth:
+        ctx.cap("module walk: time budget reached; every flag combination completed depth %d (of %d)" % (mindepth, depth))
+    ctx.part("module-walk", flag_combinations=len(combos), depth=depth, depth_completed_by_all=mindepth, ops_per_state=len(ops),
              distinct_outcomes=len(outcomes), frontier_left_at_depth_limit=left)
     if left:
         ctx.part("module-walk", note="search stopped at depth %d (bounded), all states up to that depth expanded" % depth)
